@@ -238,7 +238,7 @@ func c13Stack(r *eng.Run) {
 		gotPings = append(gotPings, b)
 		return nil
 	}
-	fr := wsflate.NewReader(nil, flateDtor)
+	fr := wsflate.NewReader(nil, drawDtor(r))
 	buf := make([]byte, drawBuf(r))
 	for i, m := range msgs {
 		h, err := rd.NextFrame()
